@@ -621,7 +621,9 @@ struct Game {
       int rc = cls_of(*n);
       std::string xn = i == 0 ? "natural" : xr[i - 1].name, yn = j == 0 ? "natural" : yr[j - 1].name;
       if (rc != rcls) {
-        std::string cav = d.repdep_caveat(op.name, CL[xcls], CL[ycls], xn, yn);
+        // a known-defect predicate takes precedence over a documented caveat (the case is then reported under that trigger)
+        const std::string rtrig = d.repdep_trigger(xnat, *ynat, xo, yo);
+        std::string cav = d.repdep_caveat(op.name, CL[xcls], CL[ycls], xn, yn, rtrig);
         if (!cav.empty()) {
           opcount(gop, OC_REPDEP_CAVEAT);
           // even under a documented caveat the result must be one the documentation allows
@@ -629,7 +631,7 @@ struct Game {
             viol(site, "well-defined-on-values:result-outside-documented-alternatives", "none", input_json(oi, it.edge, "plain", xn, yn), T(rc), "one of the documented alternatives");
         }
         if (cav.empty() || caveat_as_violation)
-          viol(site, "well-defined-on-values:result-depends-on-representation", cav.empty() ? d.repdep_trigger(xnat, *ynat, xo, yo) : cav, input_json(oi, it.edge, "plain", xn, yn),
+          viol(site, "well-defined-on-values:result-depends-on-representation", cav.empty() ? rtrig : cav, input_json(oi, it.edge, "plain", xn, yn),
                T(rc), T(rcls) + " (natural representations)", "older object:\n" + d.dump(xo) + "newer object:\n" + d.dump(yo) + "natural older object:\n" + d.dump(xnat) + "natural newer object:\n" + d.dump(*ynat));
         // the result must be an upper bound whatever the representation
         if (!ref_subset(ycls, rc)) viol(site, "upper-bound:result-does-not-contain-newer-argument", "none", input_json(oi, it.edge, "plain", xn, yn), T(rc), "superset of " + T(ycls));
